@@ -4,11 +4,12 @@ import nodecheck
 PROFILE = dict(outbound=0.9)
 W = nodecheck.weights(tick=10, dpr=4, close=3, conndone=8, cea=8, readerr=2)
 N_QUICK, N_THOROUGH, LENGTH = 60, 1500, 22
+THEMES = (("disconnect", None, 0, None, 0), ("disconnect_deep", 0, 0, 4000, 0), ("handshake_out", 2, 30, 3, 300))
 FILES = ["Props/C12.v"]
 
 
 def check(run):
-    return nodecheck.run(run, "C12", FILES, PROFILE, W, N_QUICK, N_THOROUGH, LENGTH)
+    return nodecheck.run(run, "C12", FILES, PROFILE, W, N_QUICK, N_THOROUGH, LENGTH, themes=THEMES)
 
 
 replay = nodecheck.replay_generic
